@@ -449,10 +449,53 @@ impl Engine for C12 {
         ]
     }
     fn exhaustive(&self, _tier: Tier) -> Vec<Case> {
-        relcwd_family().into_iter().map(|prog| Case::RelCwd { prog }).collect()
+        let mut out: Vec<Case> = relcwd_family().into_iter().map(|prog| Case::RelCwd { prog }).collect();
+        // every extraction entry point x destination class on a pristine, then damaged entry
+        for (di, dmg) in [CDamage::FlipBit(9), CDamage::Truncate(4), CDamage::OtherBlob(1), CDamage::Delete].into_iter().enumerate() {
+            let keys = vec!["entry".to_string(), "other".to_string()];
+            let blobs = vec![crate::blob::Blob::new(3000 + di, 1), crate::blob::Blob::new(40, 2)];
+            let a = AddrRef { algo: crate::blob::Algo::Sha256, blob: 0 };
+            let mut steps = vec![Step { op: Op::Write(WriteSpec::simple(Some(0), 0)), fl: Fl::Sync }, Step { op: Op::Write(WriteSpec::simple(Some(1), 1)), fl: Fl::Sync }];
+            for round in 0..2 {
+                for kind in [XKind::Copy, XKind::HardLink, XKind::Reflink] {
+                    for checked in [true, false] {
+                        for by in [By::Key(0), By::Addr(a)] {
+                            for dest in [Dest::Absent, Dest::Existing, Dest::ExistingSuperset, Dest::LinkOfContent, Dest::SymlinkToContent, Dest::Directory, Dest::WithSiblings] {
+                                steps.push(Step { op: Op::Extract { kind, checked, by, dest }, fl: Fl::Sync });
+                            }
+                        }
+                    }
+                }
+                if round == 0 {
+                    steps.push(Step { op: Op::DamageContent { addr: a, dmg: dmg.clone() }, fl: Fl::Sync });
+                }
+            }
+            let assign = vec![0u8; 60];
+            out.push(Case::Prog(ProgCase { prog: Program { keys, blobs, steps }, assign }));
+        }
+        // a linked file is deleted, then another file with the same bytes is linked (the address
+        // holds a dangling link), then the entries are read
+        for oneshot in [true, false] {
+            let keys = vec!["first".to_string(), "second".to_string()];
+            let blobs = vec![crate::blob::Blob::new(500, 3), crate::blob::Blob::new(40, 2)];
+            let link = |key: usize, target: usize| Op::LinkTo(LinkSpec { key: Some(key), blob: 0, target, relative: false, algo: crate::blob::Algo::Sha256, oneshot, pre_reads: vec![], declare: Declare::Exact, integ: IntegDecl::None, dotdot_via_symlink: false, vectored_reads: false });
+            let a = AddrRef { algo: crate::blob::Algo::Sha256, blob: 0 };
+            let steps = vec![
+                Step { op: link(0, 0), fl: Fl::Sync },
+                Step { op: Op::RemoveTarget { target: 0 }, fl: Fl::Sync },
+                Step { op: Op::Exists { addr: a }, fl: Fl::Sync },
+                Step { op: link(1, 1), fl: Fl::Sync },
+                Step { op: Op::Read { key: 0 }, fl: Fl::Sync },
+                Step { op: Op::Read { key: 1 }, fl: Fl::Sync },
+                Step { op: Op::Write(WriteSpec::simple(Some(1), 0)), fl: Fl::Sync },
+                Step { op: Op::Read { key: 0 }, fl: Fl::Sync },
+            ];
+            out.push(Case::Prog(ProgCase { prog: Program { keys, blobs, steps }, assign: vec![0u8; 60] }));
+        }
+        out
     }
     fn exhaustive_note(&self, _tier: Tier) -> String {
-        "fixed family: 8 programs run in three driver processes with the cache given as a relative path and the working directory changing between calls and between the last chunk and the commit of a write".into()
+        "fixed families: 8 programs run in three driver processes with the cache given as a relative path and the working directory changing; every extraction entry point x 7 destination classes on a pristine and then damaged entry (4 damages); a deleted link target followed by a link of another file with the same bytes".into()
     }
     fn random_cases(&self, tier: Tier) -> u32 {
         tier.pick(800, 25000)
